@@ -325,12 +325,15 @@ class Check:
 
     # ------------------------------------------------------------------ known findings
     def known(self):
+        """Known findings of this property: known_findings.d/<ID>.json (source of truth, one file per property so that
+        they can be edited independently); bin/mkmanifest aggregates them into /verif/known_findings.json."""
         if self._known is None:
+            self._known = {}
             try:
-                data = json.load(open(os.path.join(VERIF, "known_findings.json")))
+                data = json.load(open(os.path.join(VERIF, "known_findings.d", self.pid + ".json")))
             except OSError:
                 data = {"findings": [], "fixed": []}
-            self._known = {f["id"]: f for f in data.get("findings", []) if f.get("property") == self.pid}
+            self._known = {f["id"]: f for f in data.get("findings", []) if f.get("property", self.pid) == self.pid}
         return self._known
 
     # ------------------------------------------------------------------ verdict
